@@ -280,6 +280,13 @@ def stages(which):
                 return o(b, a, e, la, lo, cloudf=cloud)
 
         out.append(Stage("EAS.__call__[pressure-map cloud]", lambda: EAS(cm), opt_call_cloud, g_opt, sizes=(17, 101)))
+
+        def g_opt_inwin(rng, n):
+            # every decay inside the altitude window (nothing for the stage to mask), longitudes in
+            # the 0..360 deg convention
+            return rng.uniform(0, B42, n), rng.uniform(0, 20, n), 10 ** rng.uniform(-3, 3, n), rng.uniform(-1.5, 1.5, n), rng.uniform(0, 2 * np.pi, n)
+
+        out.append(Stage("EAS.__call__[pressure-map cloud, all in window, longitudes 0..2pi]", lambda: EAS(cm), opt_call_cloud, g_opt_inwin, sizes=(2, 17)))
     if which == "radio":
         def g_rad(rng, n):
             beta = rng.uniform(0.001, B42, n)
@@ -323,6 +330,6 @@ def run(ctx):
     if len(ctx.obs.get("stages_driven", [])) < 17:
         ctx.inconclusive_because(f"only {len(ctx.obs.get('stages_driven', []))} of 17 stage adapters were driven")
     return ctx.finish(
-        rule="18 stage adapters (geometry throw and positions, target-mode throw, exit probability for 3 table versions, tau energy with explicit u for scattered energies and for an energy scan in blocks, Taus.__call__, decay altitude with explicit and internal numbers, both spectra, optical signal with and without a pressure-map cloud, radio field for two detector altitudes, SNR) x batch sizes {1,2,17,8191,8192,8193,20000} (kernel stages {1,2,17,101,250}) x {repeat, seeded permutations through reused buffers and fresh arrays, all split points for n<=17 / seeded ones, single-event rows}; batches mix every mask class of each stage; a case is a distinct (stage, batch)",
+        rule="19 stage adapters (geometry throw and positions, target-mode throw, exit probability for 3 table versions, tau energy with explicit u for scattered energies and for an energy scan in blocks, Taus.__call__, decay altitude with explicit and internal numbers, both spectra, optical signal with and without a pressure-map cloud, radio field for two detector altitudes, SNR) x batch sizes {1,2,17,8191,8192,8193,20000} (kernel stages {1,2,17,101,250}) x {repeat, seeded permutations through reused buffers and fresh arrays, all split points for n<=17 / seeded ones, single-event rows}; batches mix every mask class of each stage; a case is a distinct (stage, batch)",
         assumptions=["bit-for-bit comparison (numpy's vector and tail loops agree per element on this machine for the routines used)", "empty halves are not demanded (the pipeline never calls a stage with an empty batch)", "stages without an explicit-u parameter are driven with a constant RNG stub, so no draw order is assumed"],
     )
